@@ -3,6 +3,9 @@ P = "dulwich/pack.py"
 F19 = "dulwich/protocol.py"
 IX = "dulwich/index.py"
 BOUNDED = {
+    "C20": [
+        {"name": "c20_roundtrip", "script": "c20_roundtrip.py", "args": []},
+    ],
     "C17": [
         {"name": "validate_path@path_strings", "script": "enum_contract.py", "args": [IX, "validate_path", "path_strings"]},
         {"name": "_is_ntfs_dotgit@element_strings", "script": "enum_contract.py", "args": [IX, "_is_ntfs_dotgit", "element_strings"]},
